@@ -6,6 +6,7 @@ CONSTANTS
   GetW = 2
   LateT = 1
   Fixed_F20 = TRUE
+  Fixed_F26 = TRUE
   NackHorizon = 100
   Caps = {1, 2, 3}
   Ids = {1, 2}
